@@ -389,6 +389,40 @@ def run_planted(rec, sh, tier, seed):
                     if gf is None or set(gf) != set(got):
                         rec.violation("fimo:fasta_vs_tensor_differ", dict(case, input="fasta"))
                     rec.observe(L, nm, thr, rc, len(ref))
+        if L <= 1000:
+            # large pseudocounts: with eps = 0.1 every entry of a uniform column has a POSITIVE log-odds, so the lowest partial sum of
+            # column minima is not the last one; motifs = strong core followed (or preceded) by several uniform columns
+            motifs2 = []
+            for k, (wc, wu) in enumerate(((6, 6), (8, 10), (5, 3), (10, 12))):
+                cons = rs.randint(0, 4, wc)
+                core = numpy.full((4, wc), 0.05)
+                core[cons, numpy.arange(wc)] = 0.85
+                uni = numpy.full((4, wu), 0.25)
+                pw = numpy.concatenate([core, uni] if k % 2 == 0 else [uni, core], axis=1)
+                motifs2.append(("flat%d" % k, pw, cons, 0 if k % 2 == 0 else wu))
+            codes2 = [c.copy() for c in seqs]
+            for si, c in enumerate(codes2):
+                for k, (name, pw, cons, off) in enumerate(motifs2):
+                    o = 10 + 40 * k + si
+                    if o + pw.shape[1] <= L:
+                        c[o + off:o + off + len(cons)] = cons
+            X2 = ohe(numpy.stack(codes2), 4)
+            md2 = {n: torch.from_numpy(p) for n, p, _, _ in motifs2}
+            ml2 = [(n, p) for n, p, _, _ in motifs2]
+            for eps_ in (0.1, 0.5, 1e-4):
+                for thr in (1e-2, 1e-4):
+                    for rc in (True, False):
+                        case = dict(fn="fimo", L=L, n_sequences=nseq, n_motifs=len(ml2), threshold=thr, bin_size=0.1, eps=eps_, reverse_complement=rc,
+                                    input="tensor (planted motifs, cores with uniform flanks)", seed=seed)
+                        ref, und = ref_hits_long(codes2, ml2, eps_, 0.1, thr, rc)
+                        st, dfs = call(fimo, md2, X2, threshold=thr, reverse_complement=rc, eps=eps_)
+                        rec.case(nseq * L * len(ml2) * (2 if rc else 1), len(ref))
+                        if st != "ok":
+                            rec.violation("fimo:raises", case, observed=dfs)
+                            continue
+                        got, dup = df_to_hits(dfs)
+                        if compare(rec, case, got, dup, ref, und, [n for n, _ in ml2], thr):
+                            n_hits += len(ref)
         rec.count("reference_hits", n_hits)
         rec.count("hits_at_last_window", n_last)
         rec.sample(dict(kind="planted", L=L, widths=widths, thresholds=[1e-2, 1e-4, 1e-6], planted_offsets="0,1,126..128,254..256,32766..32768,65534..65536,L-w-1,L-w"))
